@@ -77,7 +77,8 @@ func verifLowerASCII(s string) string {
 	return string(b)
 }
 
-var verifNameTemplates = []string{"", "cue.mod/", "x/cue.mod/", "CUE.MOD/", "cue.mo", "cue.mod/module.cu", "cue.mod/local-module.cu", "x/", "cue.mod/MODULE.CU"}
+var verifNameTemplates = []string{"", "cue.mod/", "x/cue.mod/", "CUE.MOD/", "cue.mo", "cue.mod/module.cu", "cue.mod/local-module.cu", "x/", "cue.mod/MODULE.CU",
+	"cue.mod/x/cue.mod/", "cue.mod/cue.mod/", "cue.mod/x/cue.mo", "cue.mod/x/Cue.Mod/"}
 
 // one entry "template + arbitrary ASCII bytes" next to the module file
 func verifHarnessCheckZipName() {
@@ -132,6 +133,16 @@ func verifHarnessCheckZipCollisions() {
 		if verifChoice(2) == 1 {
 			n1, n2 = n2, n1
 		}
+	} else if verifParam("MODE", 0) == 2 {
+		// two files in directories: "<x>/<y>" with letters a/b of symbolic case
+		letter := func() byte {
+			if verifChoice(2) == 0 {
+				return byte(verifIte(verifBool("upper"), 'A', 'a'))
+			}
+			return byte(verifIte(verifBool("upper"), 'B', 'b'))
+		}
+		n1 = string([]byte{letter(), '/', letter()})
+		n2 = string([]byte{letter(), '/', letter()})
 	} else {
 		n1, n2 = verifSmallAlphabetName(n), verifSmallAlphabetName(n)
 	}
@@ -162,6 +173,18 @@ func verifHarnessCheckZipCollisions() {
 	verifAssert(n1 != n2, "A15.2-no-duplicate")
 	verifAssert(!verifstrings.EqualFold(n1, n2), "A15.2-no-case-collision")
 	verifAssert(!verifstrings.HasPrefix(n2, n1+"/") && !verifstrings.HasPrefix(n1, n2+"/"), "A15.2-no-file-directory-clash")
+	// no two directory prefixes that differ only by case (they would be one
+	// directory on a case-insensitive file system)
+	for i := 0; i < len(n1); i++ {
+		if n1[i] != '/' {
+			continue
+		}
+		for j := 0; j < len(n2); j++ {
+			if n2[j] == '/' && i == j {
+				verifAssert(verifImplies(verifLowerASCII(n1[:i]) == verifLowerASCII(n2[:j]), n1[:i] == n2[:j]), "A15.2-no-directory-case-collision")
+			}
+		}
+	}
 	l1, l2 := verifLowerASCII(n1), verifLowerASCII(n2)
 	verifAssert(!verifstrings.HasPrefix(l2, l1+"/") && !verifstrings.HasPrefix(l1, l2+"/"), "A15.2-no-file-directory-clash-case-insensitive")
 }
